@@ -12,6 +12,10 @@ Oracle: the property's own grammar of valid values, under the harness's virtual 
  either   (spellings the statement does not pin: one-digit or zero-padded longer components, blanks around a
            component, '.' as time separator, mixed date separators, 1-3 digit years): one of the two
            outcomes above, consistently.
+ sub-second: with the clock aligned to a whole second at the set, the clock is moved in microsecond steps around
+           every carry (seconds, minutes, hours, midnight at month / year ends) and both functions are read after
+           every step: TIME$ is a valid time of day equal to the set time plus the WHOLE seconds elapsed (never
+           ahead, never behind) and DATE$ changes exactly when that sum passes midnight.
  ENVIRON "name=value" then ENVIRON$(name), ENVIRON$(lower), ENVIRON$(upper), ENVIRON$(random case) = value;
            a later ENVIRON under another capitalisation replaces the value. NUL / control bytes / non-ASCII
            names: a BASIC error or an exact read-back, never a host exception.
@@ -50,7 +54,8 @@ META = {
         'thorough': 'all 86400 hh:mm:ss, 1440 hh:mm and 24 hh time strings; all 43830 days 1980-01-01..2099-12-31 as mm-dd-yyyy and '
                     'mm/dd/yyyy (and mm-dd-yy, mm/dd/yy where the two-digit year is in the window)'},
     'require_counters': {'any': ['time_valid_readback_ok', 'date_valid_readback_ok', 'invalid_rejected_unchanged',
-                                 'environ_readback_ok', 'environ_case_variants_ok', 'clock_advances_checked']},
+                                 'environ_readback_ok', 'environ_case_variants_ok', 'clock_advances_checked',
+                                 'subsecond_readbacks_ok', 'carries_observed', 'midnight_wraps_observed']},
 }
 
 WS = b' \t\n\x0b\x0c\r'
@@ -251,6 +256,88 @@ class Clk(object):
         self.cur_time, self.cur_date = t, d
 
 
+def _clk_subsecond(self, t_set, d_set, steps_us):
+    """
+    Set DATE$/TIME$ with the (virtual) clock on a whole second, then move the clock in steps of micro-
+    seconds and read both functions after every step. With E = whole seconds elapsed since the set:
+    TIME$ must parse as a valid time and equal t_set + E (never ahead, never behind), and DATE$ must be
+    d_set plus the number of times that sum passed midnight - it changes exactly when TIME$ wraps to 00:00:00.
+    """
+    import datetime
+    res, box = self.res, self.box
+    # align the clock to a whole second (the set keeps the sub-second phase of the clock)
+    micro = box.clock.t.microsecond
+    if micro:
+        box.clock.advance((1000000 - micro) / 1e6)
+    if box.clock.t.microsecond:
+        box.clock.t = box.clock.t.replace(microsecond=0)
+    self.check(b'DATE$', d_set, count=False)
+    self.check(b'TIME$', t_set, count=False)
+    if self.cur_time != t_set or self.cur_date != d_set:
+        return                          # the set itself failed and was reported
+    t0 = box.clock.t
+    h, m, sec = [int(x) for x in t_set.split(b':')]
+    base = h * 3600 + m * 60 + sec
+    mm, dd, yy = [int(x) for x in d_set.split(b'-')]
+    day0 = datetime.date(yy, mm, dd)
+    for step in steps_us:
+        box.clock.t = box.clock.t + datetime.timedelta(microseconds=step)
+        el = box.clock.t - t0
+        el_us = (el.days * 86400 + el.seconds) * 1000000 + el.microseconds
+        total = base + el_us // 1000000
+        exp_t = fmt_time(((total // 3600) % 24, (total // 60) % 60, total % 60))
+        nd = day0 + datetime.timedelta(days=total // 86400)
+        t, d = box.ev(b'TIME$'), box.ev(b'DATE$')
+        case = {'time_set': t_set, 'date_set': d_set, 'elapsed_microseconds': el_us, 'read': [t, d]}
+        res.case(('subsecond', t_set, d_set, el_us))
+        ok = True
+        parts = (t or b'').split(b':')
+        valid = (len(parts) == 3 and all(len(x) == 2 and x.isdigit() for x in parts)
+                 and int(parts[0]) < 24 and int(parts[1]) < 60 and int(parts[2]) < 60)
+        if not valid:
+            res.violation('time:function-returns-invalid-time',
+                          'TIME$=%r, then %.6f s elapsed: TIME$ returns %r, which is not a time of day' % (t_set, el_us / 1e6, t), case)
+            ok = False
+        elif t != exp_t:
+            got = int(parts[0]) * 3600 + int(parts[1]) * 60 + int(parts[2])
+            ahead = ((got - total) % 86400) < 43200
+            res.violation('time:runs-ahead-of-elapsed-time' if ahead else 'time:lags-behind-elapsed-time',
+                          'TIME$=%r, then %.6f s elapsed (%d whole seconds): TIME$ returns %r, expected %r' % (
+                              t_set, el_us / 1e6, el_us // 1000000, t, exp_t), case)
+            ok = False
+        if nd.year <= 2099 and d != fmt_date((nd.year, nd.month, nd.day)):
+            res.violation('date:changes-not-at-midnight-wrap',
+                          'DATE$=%r TIME$=%r, then %.6f s elapsed: TIME$ %r but DATE$ %r, expected %r' % (
+                              d_set, t_set, el_us / 1e6, t, d, fmt_date((nd.year, nd.month, nd.day))), case)
+            ok = False
+        if ok:
+            res.count('subsecond_readbacks_ok')
+            if total % 60 == 0 and el_us >= 1000000 and el_us % 1000000 < 500000:
+                res.count('carries_observed')
+            if total // 86400 and el_us % 1000000 < 500000:
+                res.count('midnight_wraps_observed')
+    # leave the clock on a whole second again and resynchronise the tracked values
+    micro = box.clock.t.microsecond
+    if micro:
+        box.clock.t = box.clock.t + datetime.timedelta(microseconds=1000000 - micro)
+    self.sync()
+
+
+Clk.subsecond = _clk_subsecond
+
+# offsets (cumulative microseconds after the set) straddling the next whole seconds
+SUBSECOND_WALK = [0, 1, 249999, 250000, 499999, 500000, 500001, 750000, 999998, 999999, 1000000, 1000001, 1250000, 1499999,
+                  1500000, 1999999, 2000000, 2500000]
+
+
+def walk_steps(offsets):
+    out, prev = [], 0
+    for o in offsets:
+        out.append(o - prev)
+        prev = o
+    return out
+
+
 def invalid_mechanism(which, s):
     """Why the oracle calls the string invalid (mechanism for the key)."""
     seps = (b':', b'.') if which == 'time' else (b'-', b'/')
@@ -347,7 +434,7 @@ def short_ok(y):
 # plan / run
 
 def plan(tier, seed):
-    shards = [{'kind': 'time_directed'}, {'kind': 'date_directed'}, {'kind': 'environ_directed'},
+    shards = [{'kind': 'time_directed'}, {'kind': 'date_directed'}, {'kind': 'environ_directed'}, {'kind': 'subsecond_directed'},
               {'kind': 'time_forms'}, {'kind': 'date_month_ends', 'part': 0, 'parts': 2}, {'kind': 'date_month_ends', 'part': 1, 'parts': 2}]
     if tier == 'quick':
         for i in range(4):
@@ -382,6 +469,8 @@ def run_shard(spec, res):
             _date_directed(clk, res)
         elif kind == 'time_forms':
             _time_forms(clk, res)
+        elif kind == 'subsecond_directed':
+            _subsecond_directed(clk, res)
         elif kind == 'date_month_ends':
             _date_month_ends(clk, res, spec)
         elif kind == 'time_all':
@@ -436,6 +525,27 @@ def _time_directed(clk, res):
     res.sample({'kind': 'time_directed', 'invalid_examples': TIME_INVALID[16:24], 'unpinned_examples': TIME_EITHER[:5]})
 
 
+def _subsecond_directed(clk, res):
+    """Sub-second read-backs around every carry: seconds, minutes, hours, midnight with month / year ends."""
+    steps = walk_steps(SUBSECOND_WALK)
+    day = b'06-15-2020'
+    for sec in range(60):                                   # every seconds value (carry into minutes at :59)
+        clk.subsecond(b'12:30:%02d' % sec, day, steps)
+    for m in range(60):                                     # every minute boundary
+        clk.subsecond(b'07:%02d:59' % m, day, steps)
+    for h in range(24):                                     # every hour boundary, incl. midnight
+        clk.subsecond(b'%02d:59:59' % h, day, steps)
+        clk.subsecond(b'%02d:00:00' % h, day, steps)
+    for d in (b'12-31-1999', b'01-01-1980', b'02-28-2000', b'02-29-2000', b'02-28-2001', b'12-31-2098', b'12-30-2099', b'04-30-1985',
+              b'07-31-2077', b'12-31-2077'):
+        clk.subsecond(b'23:59:59', d, steps)
+        clk.subsecond(b'23:59:58', d, steps)
+    # longer walks: half-second raster over several minutes across midnight
+    clk.subsecond(b'23:58:30', b'12-31-1999', [500000] * 400)
+    clk.subsecond(b'11:59:00', day, [333333] * 400)
+    res.sample({'kind': 'subsecond_directed', 'offsets_microseconds': SUBSECOND_WALK})
+
+
 def _time_forms(clk, res):
     """All hh:mm and all hh strings (both tiers)."""
     n = 0
@@ -482,6 +592,13 @@ def _time_random(clk, res, spec, rng):
             clk.advance(rng.choice([1, 60, 3600, 86400, rng.randrange(100000)]))
         if rng.random() < 0.02:
             clk.check(b'DATE$', spell_date(rand_date(rng), b'-', False), count=False)
+        if rng.random() < 0.02:
+            t = rand_time(rng)
+            if rng.random() < 0.5:
+                t = rng.choice([(t[0], t[1], 59), (t[0], 59, 59), (23, 59, 59), (23, 59, rng.randrange(55, 60))])
+            clk.subsecond(fmt_time(t), spell_date(rand_date(rng), b'-', False),
+                          [rng.choice([1, 1000, 250000, 499999, 500000, 500001, 999999, 1000000, rng.randrange(1, 3000000)])
+                           for _ in range(rng.randint(3, 12))])
 
 
 def _date_directed(clk, res):
